@@ -278,3 +278,103 @@ Definition remove_item (root : node) (p : path) (f : string) (i : nat) : option 
     end
   | None => None
   end.
+
+(* ---- optional fields: optional_node_property.__set__ (None -> node: _create_node, node -> None: _remove_node) ---- *)
+Fixpoint find_field (fs : list fdesc) (f : string) : option fdesc :=
+  match fs with [] => None | fd :: r => if String.eqb (f_name fd) f then Some fd else find_field r f end.
+
+(* what the generated first_token / last_token / _x_pivot properties read: the border token of a child field *)
+Definition kids_get (cs : classes_t) (fuel : nat) (kids : list (string * slot)) : string -> side -> option (option tk) :=
+  fun name s => match kid kids name with Some sl => slot_border (border cs fuel s) s sl | None => None end.
+
+(* self._f_pivot: the chain extracted from the source (c_pivots), evaluated on the node's children; the
+   children are required to be stored in declaration order (what the generated __init__ does) *)
+Definition opt_pivot (cs : classes_t) (n : node) (f : string) : option (fkind * tk) :=
+  match n with
+  | Leaf _ => None
+  | Tree c _ _ kids _ =>
+    match find_class cs c with
+    | None => None
+    | Some dd =>
+      if names_eqb (map fst kids) (names dd) && nodupb (map fst kids) then
+        match find_field (c_fields dd) f, lookup (pivot_name f) (c_pivots dd) with
+        | Some fd, Some ch =>
+          match eval_chain (kids_get cs (depth n) kids) ch with
+          | Some pv => Some (f_kind fd, pv)
+          | None => None
+          end
+        | _, _ => None
+        end
+      else None
+    end
+  end.
+
+(* optional_left_field._create_node: token_store.insert_after(pivot, [*separators, *value.detach()])
+   optional_right_field._create_node: token_store.insert_before(pivot, [*value.detach(), *separators]) *)
+Definition create_opt_at (cs : classes_t) (n : node) (f : string) (seps : list tk) (y : node) : option node :=
+  match n with
+  | Leaf _ => None
+  | Tree c s T kids d =>
+    match kid kids f, opt_pivot cs n f with
+    | Some (SOpt None), Some (k, pv) =>
+      match find_off pv T with
+      | Some a =>
+        match k with
+        | FOptL _ => Some (Tree c s (splice T (S a) (seps ++ node_toks y)) (set_kid kids f (SOpt (Some y))) d)
+        | FOptR _ => Some (Tree c s (splice T a (node_toks y ++ seps)) (set_kid kids f (SOpt (Some y))) d)
+        | _ => None
+        end
+      | None => None
+      end
+    | _, _ => None
+    end
+  end.
+
+(* optional_left_field._remove_node: first = get_next(pivot); token_store.remove(first, current.last_token)
+   optional_right_field._remove_node: last = get_prev(pivot); token_store.remove(current.first_token, last) *)
+Definition remove_opt_at (cs : classes_t) (n : node) (f : string) : option (node * node) :=
+  match n with
+  | Leaf _ => None
+  | Tree c s T kids d =>
+    match kid kids f, opt_pivot cs n f with
+    | Some (SOpt (Some x)), Some (k, pv) =>
+      match k with
+      | FOptL _ =>
+        match find_off pv T, border cs (depth n) SLast x with
+        | Some a, Some lt =>
+          match find_off lt T with
+          | Some b => Some (x, Tree c s (cut T (S a) (S b)) (set_kid kids f (SOpt None)) d)
+          | None => None
+          end
+        | _, _ => None
+        end
+      | FOptR _ =>
+        match border cs (depth n) SFirst x, find_off pv T with
+        | Some ft, Some b =>
+          match find_off ft T with
+          | Some a => Some (x, Tree c s (cut T a b) (set_kid kids f (SOpt None)) d)
+          | None => None
+          end
+        | _, _ => None
+        end
+      | _ => None
+      end
+    | _, _ => None
+    end
+  end.
+
+(* at the node selected by p *)
+Definition create_opt (cs : classes_t) (root : node) (p : path) (f : string) (seps : list tk) (y : node) : option node :=
+  match select root p with
+  | Some old => match create_opt_at cs old f seps y with Some new => plug root p new | None => None end
+  | None => None
+  end.
+Definition remove_opt (cs : classes_t) (root : node) (p : path) (f : string) : option (node * node) :=
+  match select root p with
+  | Some old =>
+    match remove_opt_at cs old f with
+    | Some (x, new) => match plug root p new with Some root' => Some (x, root') | None => None end
+    | None => None
+    end
+  | None => None
+  end.
